@@ -74,6 +74,52 @@ theorem C08_word_noninterference (b : Bus) (a x w : UInt16) (h0 : x ≠ a) (h1 :
 theorem C08_wrap (b : Bus) : b.readWord 0xFFFF = mkWord (b.readByte 0) (b.readByte 0xFFFF) := by
   unfold readWord; rfl
 
+/-! ### any sequence of stores -/
+
+/-- one store on the bus: a byte or a word -/
+inductive Store
+  | byte (a : UInt16) (v : UInt8)
+  | word (a : UInt16) (w : UInt16)
+
+def Store.apply (b : Bus) : Store → Bus
+  | .byte a v => b.writeByte a v
+  | .word a w => b.writeWord a w
+
+/-- the addresses a store may touch -/
+def Store.hits (x : UInt16) : Store → Prop
+  | .byte a _ => x = a
+  | .word a _ => x = a ∨ x = a + 1
+
+/-- a byte written (where writable) is read back unchanged after ANY further sequence of byte and word stores that
+    do not address it, however long; the size and the ROM declaration never change -/
+theorem C08_stores (b : Bus) (ss : List Store) (x : UInt16) (hx : ∀ s ∈ ss, ¬ s.hits x) :
+    (ss.foldl Store.apply b).readByte x = b.readByte x ∧ (ss.foldl Store.apply b).mem.size = b.mem.size ∧
+    (ss.foldl Store.apply b).rom = b.rom := by
+  induction ss generalizing b with
+  | nil => exact ⟨rfl, rfl, rfl⟩
+  | cons s ss ih =>
+    obtain ⟨i1, i2, i3⟩ := ih (s.apply b) (fun t ht => hx t (by simp [ht]))
+    have hs := hx s (by simp)
+    simp only [List.foldl_cons]
+    cases s with
+    | byte a v =>
+      have hne : x ≠ a := fun e => hs e
+      refine ⟨?_, ?_, ?_⟩
+      · rw [i1]; exact readByte_writeByte_other b a x v hne
+      · rw [i2]; simp [Store.apply]
+      · rw [i3]; simp [Store.apply]
+    | word a w =>
+      have h0 : x ≠ a := fun e => hs (Or.inl e)
+      have h1 : x ≠ a + 1 := fun e => hs (Or.inr e)
+      refine ⟨?_, ?_, ?_⟩
+      · rw [i1]; exact readByte_writeWord_other b a x w h0 h1
+      · rw [i2]; simp [Store.apply, writeWord]
+      · rw [i3]; simp [Store.apply, writeWord]
+
+theorem C08_read_after_write_stores (b : Bus) (a : UInt16) (v : UInt8) (h : b.writable a) (ss : List Store)
+    (hx : ∀ s ∈ ss, ¬ s.hits a) : (ss.foldl Store.apply (b.writeByte a v)).readByte a = v := by
+  rw [(C08_stores _ ss a hx).1]; exact readByte_writeByte_same b a v h
+
 /-- non-vacuity: a 4-byte bus, word written at the top address: high byte is dropped, low byte lands -/
 example : ((Bus.new 3).writeWord 3 0xBEEF).readWord 3 = 0x00EF ∧ (Bus.new 3).writable 3 ∧ ¬ (Bus.new 3).writable 4 := by
   decide
